@@ -169,8 +169,11 @@ func strFormat(L *LState) int {
 		switch str[i] {
 		case 'c', 'd', 'i', 'o', 'u', 'x', 'X', 'e', 'E', 'f', 'g', 'G':
 			args = append(args, L.CheckNumber(narg))
-		default:
+		case 'q', 's':
 			args = append(args, L.CheckAny(narg))
+		default:
+			// anything else ('*', '[', %v, %T ...) means something to Go's fmt only
+			L.RaiseError("invalid option '%%%c' to 'format'", str[i])
 		}
 	}
 	L.Push(LString(fmt.Sprintf(str, args...)))
